@@ -60,9 +60,9 @@ class ProvXMLSerializer(Serializer):
         et = etree.ElementTree(xml_root)
         if isinstance(stream, io.TextIOBase):
             stream.write(
-                etree.tostring(et, xml_declaration=True, pretty_print=True).decode(
-                    "utf-8"
-                )
+                etree.tostring(
+                    et, xml_declaration=True, pretty_print=True, encoding="UTF-8"
+                ).decode("utf-8")
             )
         else:
             et.write(stream, pretty_print=True, xml_declaration=True, encoding="UTF-8")
